@@ -139,6 +139,34 @@ inline void relational_ops() {
   vt_cover(!ha && !hb, "both empty reached");
 }
 
+// converting assignments between Optional<U> and Optional<T>, and in-place construction
+inline void optional_convert_ops() {
+  nop::Optional<int> src;
+  const bool hs = nondet<bool>();
+  const int vs = nondet<int>();
+  if (hs) src = vs;
+  nop::Optional<long> dst;
+  const bool hd = nondet<bool>();
+  if (hd) dst = static_cast<long>(nondet<int>());
+  const std::uint8_t op = nondet<std::uint8_t>();
+  if (op == 0) {
+    dst = src;  // copy assignment from a different Optional type
+    vt_check(dst.empty() == !hs && src.empty() == !hs, "converting copy assignment copies the state");
+    if (hs) vt_check(dst.get() == static_cast<long>(vs), "converting copy assignment converts the value");
+  } else if (op == 1) {
+    dst = std::move(src);  // move assignment from a different Optional type
+    vt_check(dst.empty() == !hs, "converting move assignment transfers the state");
+    if (hs) vt_check(dst.get() == static_cast<long>(vs), "converting move assignment converts the value");
+    vt_check(src.empty(), "converting move assignment leaves the source empty");
+  } else if (op == 2) {
+    nop::Optional<long> in_place(nop::InPlace{}, static_cast<long>(vs));
+    vt_check(!in_place.empty() && in_place.get() == static_cast<long>(vs), "in-place construction holds the value");
+    nop::Optional<long> conv(vs);  // from a type U that T can be constructed from
+    vt_check(!conv.empty() && conv.get() == static_cast<long>(vs), "construction from a convertible value holds the converted value");
+  }
+  vt_cover(op == 1 && hs && hd, "converting move over a non-empty Optional reached");
+}
+
 // ------------------------------------------------------------------------------- Entry
 inline void entry_ops() {
   ghost_reset();
@@ -279,6 +307,7 @@ inline void status_ops() {
 
 VT_HARNESS(h_optional_tracked) { vt::optional_ops<nop::Optional<vt::T0>, vt::T0>(); }
 VT_HARNESS(h_optional_int) { vt::optional_ops<nop::Optional<int>, int>(); }
+VT_HARNESS(h_optional_convert) { vt::optional_convert_ops(); }
 VT_HARNESS(h_optional_relational) { vt::relational_ops(); }
 VT_HARNESS(h_entry) { vt::entry_ops(); }
 VT_HARNESS(h_result) { vt::result_ops(); }
